@@ -28,7 +28,7 @@
       - the RwLock's reader count is the list of reader thread ids (count = length);
       - ghost state (never read by [step] to decide behaviour): [st_olds]/[st_cleaning]/[st_epoch], [th_eg],
         the [old] component of [KReload], the snapshot [l0] in [PRgPushCas], and the log. *)
-From Coq Require Import List Arith Bool.
+From Coq Require Import List Arith Bool NArith.
 From TV Require Export Common.Sched.
 Import ListNotations.
 
@@ -617,6 +617,14 @@ Definition run_case (W : world) (n : nat) (pre : list (tid * op)) (progs : list 
   let '(s3, ys) := run_vis W s2 sched in
   let '(_, obs2) := run_hist W s3 post in
   (obs0, ys, log_since s2 s3, finished s3, st_max s3, obs2).
+
+(** the same with every number as [N] (binary): what the driver evaluates and prints *)
+Definition obsN (x : list (nat * list (list nat) * nat)) : list (N * list (list N) * N) :=
+  map (fun '(st, evs, mx) => (N.of_nat st, map (map N.of_nat) evs, N.of_nat mx)) x.
+Definition run_caseN (W : world) (n : nat) (pre : list (tid * op)) (progs : list (list op)) (sched : list tid)
+                     (post : list (tid * op)) :=
+  let '(obs0, ys, lg, fin, mx, obs2) := run_case W n pre progs sched post in
+  (obsN obs0, map N.of_nat ys, map (map N.of_nat) lg, fin, N.of_nat mx, obsN obs2).
 
 (** worlds from tables: a filter value is (interest per callsite, enabled per callsite, hint) *)
 Definition interest_of_nat (n : nat) : interest := match n with 0 => INever | 1 => ISometimes | _ => IAlways end.
